@@ -177,6 +177,19 @@ func (e *Engine) expandCalls(role string, root *ssa.Function, visit func(c ssa.C
 				if !ok {
 					continue
 				}
+				// a call of a function value that the calling context shows to be a closure of this package: the closure's
+				// body is part of the method (fd.locked(func() { … }))
+				if c.Common().StaticCallee() == nil && !c.Common().IsInvoke() && depth < 4 {
+					if rv, rctx := resolveParam(c.Common().Value, ctx); rv != nil {
+						if mc, isMC := strip(rv).(*ssa.MakeClosure); isMC {
+							if cf, isF := mc.Fn.(*ssa.Function); isF && e.fnRole(cf) == role {
+								_ = rctx
+								walk(cf, append(append([]callCtx{}, ctx...), callCtx{c, cf}), depth+1)
+								continue
+							}
+						}
+					}
+				}
 				descend := visit(c, ctx)
 				g := c.Common().StaticCallee()
 				if !descend || g == nil || g.Blocks == nil || e.fnRole(g) != role || depth >= 4 {
@@ -266,6 +279,8 @@ func (e *Engine) lockedGetter(role string, lr *lockResult, g *ssa.Function) bool
 		if c, isC := in.(ssa.CallInstruction); isC && !isBuiltin(c) {
 			if lr.muCall(c) != "" {
 				locks++
+			} else if h := c.Common().StaticCallee(); h != nil && e.fnRole(h) == role && e.lockRunner(lr, h) {
+				locks++ // fd.locked(func() { v = fd.field })
 			} else {
 				ok = false
 			}
@@ -283,10 +298,54 @@ func (e *Engine) lockedGetter(role string, lr *lockResult, g *ssa.Function) bool
 	for _, r := range returnsOf(g) {
 		f, _ := loadedFieldDeep(retVals(r)[0])
 		if f == nil {
-			return false
+			// a local filled by the closure that ran under the lock
+			viaClosure := false
+			for _, a := range g.AnonFuncs {
+				instrs(a, func(in ssa.Instruction) {
+					if st, isSt := in.(*ssa.Store); isSt {
+						if lf, _ := loadedFieldDeep(st.Val); lf != nil {
+							viaClosure = true
+						}
+					}
+				})
+			}
+			if !viaClosure {
+				return false
+			}
 		}
 	}
 	return true
+}
+
+// lockRunner: h takes the mutex, runs its function parameter on every path and does nothing else.
+func (e *Engine) lockRunner(lr *lockResult, h *ssa.Function) bool {
+	if h == nil || h.Blocks == nil {
+		return false
+	}
+	fi := -1
+	for i, p := range h.Params {
+		if _, isSig := p.Type().Underlying().(*types.Signature); isSig {
+			fi = i
+		}
+	}
+	if fi < 0 || !runsParamAlways(e, h, fi) {
+		return false
+	}
+	only, locks := true, 0
+	instrs(h, func(in ssa.Instruction) {
+		c, isC := in.(ssa.CallInstruction)
+		if !isC || isBuiltin(c) {
+			return
+		}
+		switch {
+		case lr.muCall(c) != "":
+			locks++
+		case c.Common().StaticCallee() == nil && !c.Common().IsInvoke() && strip(c.Common().Value) == ssa.Value(h.Params[fi]):
+		default:
+			only = false
+		}
+	})
+	return only && locks > 0
 }
 
 // walkLocal visits every instruction of root and of the functions of the same role it calls statically (to the given
